@@ -966,6 +966,10 @@ fn judge(wants: &[Want], metas: &[Meta], out: &FarmOut, stats: &mut Stats) -> Ve
     let Some(b) = &out.build else { return Verdict::Infra("no build result".into()) };
     if !b.ok() {
         let text = format!("{}{}", b.stdout, b.stderr);
+        // cargo lost a file in the shared target directory (another process cleaned it): tool trouble, not a verdict
+        if !text.contains("error[E") && (text.contains("could not parse/generate dep info") || text.contains("failed to remove")) {
+            return Verdict::Infra(format!("cargo trouble in the worker target dir: {}", util::truncate(&text, 400)));
+        }
         // a rustc snippet line (`NN |  code`) that shows the rewritten hook call
         let related = text.lines().any(|l| {
             let t = l.trim_start();
@@ -979,6 +983,9 @@ fn judge(wants: &[Want], metas: &[Meta], out: &FarmOut, stats: &mut Stats) -> Ve
         };
     }
     let Some(r) = &out.run else { return Verdict::Infra("no run result".into()) };
+    if r.status.is_none() && r.signal.is_none() && r.stderr.starts_with("spawn failed") {
+        return Verdict::Infra(format!("binary vanished before it could be started: {}", r.stderr));
+    }
     if r.timed_out {
         return Verdict::Infra("program watchdog".into());
     }
